@@ -32,6 +32,8 @@ props! {
     "C09" => c09,
     "C10" => c10,
     "C11" => c11,
+    "C12" => c12,
+    "C13" => c13,
 }
 
 pub fn iso_space(_prop: &str, _mode: &str, _tier: Tier) -> Option<Box<dyn IsoSpace>> {
